@@ -865,6 +865,11 @@ func (ce *CEnv) call(e *ECall) CVal {
 			efail("typeIs: second argument must be a type")
 		}
 		return CVal{T: mkEq(mk(SInt, "if-tag", x.T), ce.u.typeTag(ty)), Ty: types.Typ[types.Bool]}
+	case "unwrappable":
+		// unwrappable(x): the dynamic type of interface x has an Unwrap, Is or As method
+		x := ce.eval(e.Args[0])
+		ce.u.sc.declareFun("tag_unwrappable", []string{SInt}, SBool)
+		return CVal{T: mk(SBool, "tag_unwrappable", mk(SInt, "if-tag", x.T)), Ty: types.Typ[types.Bool]}
 	case "asType":
 		// asType(x, T): the value held by interface x, read as a T (meaningful when typeIs(x, T))
 		x := ce.eval(e.Args[0])
